@@ -23,9 +23,20 @@ logging.disable(logging.CRITICAL)
 ID = 'C18'
 N = {'quick': 420, 'thorough': 14000}
 LEAN_MODULES = ['GnpyProofs.Props.C18']
+# The model follows the code. /repo still has the findings F6 and F7 (DESIGN.md section 6); once the proposed repairs
+# (grp-H report) are committed there, set this to True: the correspondence then uses the repaired model functions
+# (Gnpy.Yang.legacyToYangFixed / yangToLegacyFixed) and the two `open:` lines of known_findings.txt become `fixed:`.
+import os as _os
+CODE_HAS_F6_F7_REPAIR = _os.environ.get('VERIF_C18_REPAIRED') == '1'
+OP_TO_YANG = 'c18.to_yang_fixed' if CODE_HAS_F6_F7_REPAIR else 'c18.to_yang'
+OP_TO_LEGACY = 'c18.to_legacy_fixed' if CODE_HAS_F6_F7_REPAIR else 'c18.to_legacy'
 THEOREMS = ([f'Gnpy.Round.{t}' for t in ('fmt_error_bound', 'fmt_fixpoint', 'fmt_exact')]
             + [f'Gnpy.Yang.{t}' for t in (
                 'none_empty_inverse', 'none_to_empty_idempotent', 'convert_dict_idempotent', 'range_roundtrip',
+                'degree_roundtrip', 'design_band_roundtrip', 'loss_coef_roundtrip', 'raman_coef_roundtrip',
+                'degree_to_yang_idempotent', 'design_band_to_yang_idempotent', 'range_to_yang_idempotent',
+                'loss_coef_to_yang_idempotent', 'design_band_to_legacy_idempotent', 'loss_coef_to_legacy_idempotent',
+                'range_to_legacy_idempotent',
                 'delta_power_range_fails_current', 'delta_power_range_fixed_witness', 'raman_efficiency_fails_current',
                 'alias_entries', 'alias_fails_pre_fix')])
 RULE = ('documents of the five kinds (topology, equipment, services, spectrum, sim-params) generated from one PRNG with '
@@ -794,6 +805,11 @@ def gen_fmt(rng, widen):
             x = rng.choice([t, -t, math.nextafter(t, math.inf), math.nextafter(t, -math.inf)])
         else:
             x = rng.choice([0.0, -0.0, 1.0, 0.5, 2.5, 0.125, 1e22, 5e-324, 123456789.125, float(2 ** 53)])
+        if rng.random() < 0.2:
+            # many declared digits on a large value: the printed text is longer than Python's repr (exercises the
+            # 16/17-digit boundary of PrettyFloat)
+            d = rng.choice([14, 15, 16, 17, 18])
+            x = round(rng.uniform(1, 2e14), rng.choice([1, 2, 3]))
         xs.append([d, x])
     return {'kind': 'fmt', 'xs': xs}
 
@@ -1002,6 +1018,22 @@ def preserved(res, a, b, path=(), ip=''):
     return int(float(a) != float(b))
 
 
+def legacy_spelling(kind, l):
+    """yang_to_legacy writes an equipment RamanFiber `raman_efficiency {cr, frequency_offset}` back as
+    `raman_coefficient {g0, frequency_offset}` (pinned by the repo's own expected files).  The two spellings carry the same
+    values, so the document-level comparison reads the second as the first; whether the LOADER and a second conversion
+    understand that spelling is judged separately (finding F7)."""
+    if kind != 'equipment' or not isinstance(l, dict):
+        return l
+    l = copy.deepcopy(l)
+    for f in l.get('RamanFiber', []):
+        rc = f.get('raman_coefficient')
+        if isinstance(rc, dict) and 'raman_efficiency' not in f and set(rc) == {'g0', 'frequency_offset'}:
+            del f['raman_coefficient']
+            f['raman_efficiency'] = {'cr': rc['g0'], 'frequency_offset': rc['frequency_offset']}
+    return l
+
+
 def _benign_added(path, k, v):
     # add_missing_default_type_variety names the first unnamed ROADM entry 'default' (what the loader assumes anyway)
     return path == ('Roadm',) and k == 'type_variety' and v == 'default'
@@ -1145,7 +1177,7 @@ def run_doc(case, drv):
             res.fail(f'declared digits: {k} is declared with {v} fraction digits, precision_dict says {PRECISION_DICT.get(k)}')
     # --- legacy -> YANG
     y, yerr = _impl(legacy_to_yang, d)
-    my, myerr = _model(drv, 'c18.to_yang', d)
+    my, myerr = _model(drv, OP_TO_YANG, d)
     _cmp_conv(res, 'legacy_to_yang', y, yerr, my, myerr)
     if yerr is not None:
         res.stats[f'rejected_by_converter_{yerr}'] += 1
@@ -1173,7 +1205,7 @@ def run_doc(case, drv):
     res.stats['accepted'] += 1
     if case.get('damage'):
         res.stats[f'damage_accepted_{case["damage"]}'] += 1
-    ml, mlerr = _model(drv, 'c18.to_legacy', y)
+    ml, mlerr = _model(drv, OP_TO_LEGACY, y)
     _cmp_conv(res, 'yang_to_legacy', l, lerr, ml, mlerr)
     if lerr is not None:
         res.fail(f'accepted document cannot be converted back: yang_to_legacy raises {lerr}')
@@ -1181,17 +1213,17 @@ def run_doc(case, drv):
     # --- second passes (idempotence), implementation and model
     y2, y2err = _impl(legacy_to_yang, y)
     y2msg = LAST_MSG[0]
-    _cmp_conv(res, 'legacy_to_yang(yang)', y2, y2err, *_model(drv, 'c18.to_yang', y))
+    _cmp_conv(res, 'legacy_to_yang(yang)', y2, y2err, *_model(drv, OP_TO_YANG, y))
     l2, l2err = safe_y2l(l)
     l2msg = LAST_MSG[0]
-    _cmp_conv(res, 'yang_to_legacy(legacy)', l2, l2err, *_model(drv, 'c18.to_legacy', l))
+    _cmp_conv(res, 'yang_to_legacy(legacy)', l2, l2err, *_model(drv, OP_TO_LEGACY, l))
     y3, y3err = _impl(legacy_to_yang, l)
     y3msg = LAST_MSG[0]
-    _cmp_conv(res, 'legacy_to_yang(roundtrip)', y3, y3err, *_model(drv, 'c18.to_yang', l))
+    _cmp_conv(res, 'legacy_to_yang(roundtrip)', y3, y3err, *_model(drv, OP_TO_YANG, l))
     # the loader path on the legacy form itself (what load_gnpy_json does with a legacy file)
     l0, l0err = safe_y2l(d)
     l0msg = LAST_MSG[0]
-    _cmp_conv(res, 'yang_to_legacy(original)', l0, l0err, *_model(drv, 'c18.to_legacy', d))
+    _cmp_conv(res, 'yang_to_legacy(original)', l0, l0err, *_model(drv, OP_TO_LEGACY, d))
     # --- monitor: idempotence
     def idem(what, got, err, want, msg):
         if err is not None:
@@ -1208,7 +1240,7 @@ def run_doc(case, drv):
     idem('legacy -> YANG -> legacy -> YANG', y3, y3err, y, y3msg)
     idem('yang_to_legacy applied to a document that already is in legacy form', l0, l0err, d, l0msg)
     # --- monitor: values to the declared precision, structure, order
-    nround = preserved(res, d, l)
+    nround = preserved(res, d, legacy_spelling(kind, l))
     # --- loaders on both forms
     run_loaders(res, kind, d, l)
     res.nontrivial = bool(nround or _has_rewritten_structure(kind, d))
